@@ -328,6 +328,7 @@ func (p *Proxy) pump(pr *pair, src, dst net.Conn, dir string) {
 	}
 	// ---- frames (a message may be fragmented: opcode 1/2 with FIN=0, then continuation frames)
 	dataIdx := 0
+	var afterF *Fault
 	var msg []byte
 	msgOpcode := 0
 	for {
@@ -442,9 +443,15 @@ func (p *Proxy) pump(pr *pair, src, dst net.Conn, dir string) {
 		if complete {
 			dataIdx++
 		}
+		// "after" means after the whole message, which may span several frames
 		if f != nil && !f.fired && f.Pos == "after" {
-			p.fire(pr, f)
-			if f.Kind != "blackhole" {
+			afterF = f
+		}
+		if afterF != nil && (complete || !isData) && !afterF.fired {
+			g := afterF
+			afterF = nil
+			p.fire(pr, g)
+			if g.Kind != "blackhole" {
 				return
 			}
 		}
